@@ -15,6 +15,13 @@
 //	     for every round whose result differed from an earlier one, `ALT <tokens>`: every alternative is judged with
 //	     the sequential oracle (the modifiers are pure per message: theorem C14_output_independent_of_other_messages).
 //
+//	CHN V.. A.. L.. O.. hops=<i>.<j>... q:..*   one request handed through DISTINCT stack instances, all created with
+//	     the same name by httpspec.NewStack("martian") (no SetBoundary): hop k applies instance hops[k] to what hop k-1
+//	     produced.  "martian-INST<i>" in values stands for instance i's pseudonym.  OUT: table, IDOK|IDBAD (all
+//	     pseudonyms well formed - martian- + 20 lower-case hex digits - and pairwise distinct), then per hop
+//	     `HOP <DIR-style tokens>`; the chain ends at the first hop returning an error.
+//	IDS n<k>   k instances (half httpspec.NewStack, half header.NewViaModifier, none with SetBoundary): OUT n<k> wf<k'> distinct<k''>
+//
 // The literal text "martian-SELF" inside header values stands for
 // "<requestedBy>-<boundary>" of the ViaModifier inside the stack under test
 // (the boundary is random per stack); "origin.test" inside L stands for the
@@ -50,6 +57,7 @@ import (
 	"time"
 
 	"github.com/google/martian/v3"
+	"github.com/google/martian/v3/header"
 	"github.com/google/martian/v3/httpspec"
 	mlog "github.com/google/martian/v3/log"
 	"github.com/google/martian/v3/proxyutil"
@@ -71,6 +79,8 @@ type input struct {
 	status   int
 	res      []line
 	batch    []msg // CON only
+	hops     []int // CHN only
+	nids     int   // IDS only
 }
 
 type msg struct {
@@ -80,12 +90,27 @@ type msg struct {
 }
 
 func parseIn(in []string) (*input, error) {
+	if len(in) == 2 && in[0] == "IDS" && strings.HasPrefix(in[1], "n") {
+		n, err := strconv.Atoi(in[1][1:])
+		if err != nil || n < 2 || n > 4096 {
+			return nil, fmt.Errorf("bad IDS")
+		}
+		return &input{kind: "IDS", nids: n}, nil
+	}
 	if len(in) < 5 {
 		return nil, fmt.Errorf("short")
 	}
 	c := &input{kind: in[0], status: 200}
 	for _, t := range in[1:] {
 		switch {
+		case strings.HasPrefix(t, "hops="):
+			for _, p := range strings.Split(t[5:], ".") {
+				v, err := strconv.Atoi(p)
+				if err != nil || v < 0 || v > 8 {
+					return nil, fmt.Errorf("bad hops")
+				}
+				c.hops = append(c.hops, v)
+			}
 		case t == "M":
 			if len(c.batch) > 0 {
 				c.batch[len(c.batch)-1] = msg{c.req, c.status, c.res}
@@ -142,6 +167,17 @@ func (c *input) tokens() []string {
 		for _, l := range res {
 			t = append(t, "s:"+hx.HexS(l.k)+":"+hx.HexS(l.v))
 		}
+	}
+	if c.kind == "CHN" {
+		hs := make([]string, len(c.hops))
+		for i, h := range c.hops {
+			hs[i] = strconv.Itoa(h)
+		}
+		t = append(t, "hops="+strings.Join(hs, "."))
+		for _, l := range c.req {
+			t = append(t, "q:"+hx.HexS(l.k)+":"+hx.HexS(l.v))
+		}
+		return t
 	}
 	if c.kind == "CON" {
 		for _, m := range c.batch {
@@ -205,6 +241,7 @@ type stackUnderTest struct {
 	innerReq, innerR int
 	sawReq, sawRes   map[*http.Request]bool
 	direct           bool // attribute inner-group calls to requests (direct calls only)
+	inF, outF        func(string) string // CHN: substitutions over several instances
 }
 
 func newStack() (*stackUnderTest, error) {
@@ -267,8 +304,147 @@ func (s *stackUnderTest) counts() (int, int) {
 	return s.innerReq, s.innerR
 }
 
-func (s *stackUnderTest) in(v string) string  { return strings.ReplaceAll(v, selfPlaceholder, s.tag) }
-func (s *stackUnderTest) out(v string) string { return strings.ReplaceAll(v, s.tag, selfPlaceholder) }
+func (s *stackUnderTest) in(v string) string {
+	if s.inF != nil {
+		return s.inF(v)
+	}
+	return strings.ReplaceAll(v, selfPlaceholder, s.tag)
+}
+func (s *stackUnderTest) out(v string) string {
+	if s.outF != nil {
+		return s.outF(v)
+	}
+	return strings.ReplaceAll(v, s.tag, selfPlaceholder)
+}
+
+func tagWellFormed(tag string) bool {
+	if !strings.HasPrefix(tag, "martian-") || len(tag) != len("martian-")+20 {
+		return false
+	}
+	for _, c := range tag[len("martian-"):] {
+		if !(c >= '0' && c <= '9' || c >= 'a' && c <= 'f') {
+			return false
+		}
+	}
+	return true
+}
+
+// viaTag learns the pseudonym of a bare header.NewViaModifier (no SetBoundary).
+func viaTag() string {
+	vm := header.NewViaModifier("martian")
+	req, _ := http.NewRequest("GET", "http://probe.test/", nil)
+	_, remove, err := martian.TestContext(req, nil, nil)
+	if err != nil {
+		return ""
+	}
+	defer remove()
+	if err := vm.ModifyRequest(req); err != nil {
+		return ""
+	}
+	p := strings.Fields(req.Header.Get("Via"))
+	if len(p) != 2 {
+		return ""
+	}
+	return p[1]
+}
+
+func runIDS(n int) []string {
+	seen := map[string]bool{}
+	wf := 0
+	for i := 0; i < n; i++ {
+		tag := ""
+		if i%2 == 0 {
+			if s, err := newStack(); err == nil {
+				tag = s.tag
+			}
+		} else {
+			tag = viaTag()
+		}
+		if tagWellFormed(tag) {
+			wf++
+		}
+		seen[tag] = true
+	}
+	return []string{fmt.Sprintf("n%d", n), fmt.Sprintf("wf%d", wf), fmt.Sprintf("distinct%d", len(seen))}
+}
+
+// runChain hands one request through distinct same-name instances.
+func runChain(c *input) []string {
+	u, err := url.Parse(c.rawurl)
+	if err != nil {
+		return []string{"BADURL"}
+	}
+	ni := 0
+	for _, h := range c.hops {
+		if h+1 > ni {
+			ni = h + 1
+		}
+	}
+	if ni == 0 {
+		return []string{"BADCASE"}
+	}
+	inst := make([]*stackUnderTest, ni)
+	idok := true
+	seen := map[string]bool{}
+	for i := range inst {
+		s, err := newStack()
+		if err != nil {
+			return []string{"IOERR:probe"}
+		}
+		s.direct = true
+		inst[i] = s
+		if !tagWellFormed(s.tag) || seen[s.tag] {
+			idok = false
+		}
+		seen[s.tag] = true
+	}
+	inF := func(v string) string {
+		for i, s := range inst {
+			v = strings.ReplaceAll(v, fmt.Sprintf("martian-INST%d", i), s.tag)
+		}
+		return v
+	}
+	outF := func(v string) string {
+		done := map[string]bool{}
+		// single pass over distinct pseudonyms (equal pseudonyms all show as the first instance)
+		var pairs []string
+		for i, s := range inst {
+			if !done[s.tag] {
+				done[s.tag] = true
+				pairs = append(pairs, s.tag, fmt.Sprintf("martian-INST%d", i))
+			}
+		}
+		return strings.NewReplacer(pairs...).Replace(v)
+	}
+	for _, s := range inst {
+		s.inF, s.outF = inF, outF
+	}
+	out := table(c.remote, u, c.host)
+	if idok {
+		out = append(out, "IDOK")
+	} else {
+		out = append(out, "IDBAD")
+	}
+	m := *c
+	for _, h := range c.hops {
+		o := oneDirect(inst[h], &m, u)
+		out = append(out, "HOP")
+		out = append(out, o...)
+		if len(o) == 0 || o[0] != "En" {
+			break
+		}
+		// what this hop sends on is what the next hop receives
+		var next []line
+		for _, t := range o {
+			if strings.HasPrefix(t, "h:") {
+				p := strings.Split(t, ":")
+				next = append(next, line{string(hx.MustUnHex(p[1])), string(hx.MustUnHex(p[2]))})
+			}
+		}
+		m.req = next
+	}
+	return out
+}
 
 // oneDirect sends one message (request, then response) through the stack by direct calls.
 func oneDirect(s *stackUnderTest, c *input, u *url.URL) (out []string) {
@@ -1028,6 +1204,10 @@ func main() {
 		switch c.kind {
 		case "DIR":
 			return runDirect(c)
+		case "IDS":
+			return runIDS(c.nids)
+		case "CHN":
+			return runChain(c)
 		case "CON":
 			rounds := 60
 			if cfg.Thorough() {
@@ -1061,6 +1241,38 @@ func main() {
 		return
 	}
 	rng := hx.NewRNG(cfg.Seed)
+	if !concOnly {
+		// instance identity: pseudonyms of fresh instances are well formed and pairwise distinct
+		for i, n := range []int{64, 256} {
+			in := []string{"IDS", fmt.Sprintf("n%d", n)}
+			cfg.Emit(hx.Case{Name: fmt.Sprintf("ids%d", i), In: in, Out: runIn(in)})
+			cfg.Count("kind=IDS")
+		}
+		// chains of distinct same-name instances: forward chains, true loops, pre-existing entries
+		patterns := [][]int{{0, 1}, {0, 1, 2}, {0, 1, 0}, {0, 0}, {0, 1, 2, 1}, {0, 1, 2, 0}, {1, 0}, {0, 1, 2, 3}}
+		nch := 120
+		if cfg.Thorough() {
+			nch = 3000
+		}
+		for i := 0; i < nch; i++ {
+			r := rng.Fork()
+			c := genCase(r, cfg, "DIR")
+			c.kind = "CHN"
+			c.hops = patterns[r.Intn(len(patterns))]
+			if r.Chance(5, 6) {
+				c.req = genLines(r, cfg, genOpts{proxy: true})
+			}
+			inst := fmt.Sprintf("martian-INST%d", r.Intn(4))
+			for j := range c.req {
+				c.req[j].v = strings.ReplaceAll(c.req[j].v, selfPlaceholder, inst)
+			}
+			c.res = nil
+			in := c.tokens()
+			cfg.Emit(hx.Case{Name: fmt.Sprintf("chn%d", i), In: in, Out: runIn(in)})
+			cfg.Count("kind=CHN")
+			cfg.Count(fmt.Sprintf("chain-hops=%d", len(c.hops)))
+		}
+	}
 	nc := 40
 	if cfg.Thorough() {
 		nc = 400
